@@ -4,11 +4,12 @@ from vlib import bytes_coq
 
 PROPS = ["C01/Props.v"]
 META = dict(
-    text="Rocq theorems over an executable transcription of ReadSeqFileChunk, the three record splitters, the FASTA/FASTQ byte state machines and the GenBank/EMBL line parsers: for EVERY splitter answering inside its buffer, buffer size and file the chunks are numbered 0..n-1, are the CR/LF-stripped consecutive segments of the file, only CR/LF bytes fall outside and cuts happen only where the splitter answered (C01_chunker_partition); the splitters only answer at record starts (FASTA: '>' after CR/LF; FASTQ: an '@' line followed by a sequence-alphabet line, proved to be rejected by the parser anywhere but at a record boundary, so quality lines starting with '@'/'+' are never cut; flat: after LF // CR? LF); composition theorems C01_read_fasta / C01_read_fastq / C01_read_genbank / C01_read_embl: for every text the chunk parser accepts as a whole, every buffer size (and every arrival order of the parsed batches, via Common/Reseq) the records delivered are the records of the file in order; for FASTA and FASTQ an independent printer specification (C01_fasta_print_parse / C01_fastq_print_parse: any folding, LF/CRLF, blank lines, definitions, any quality bytes incl. leading '@'/'+') closes the loop (C01_read_fasta_printed / C01_read_fastq_printed); io.ReadFull over any schedule of short reads equals one read of the whole data (C01_readfull_any_transport); record independence of the flat parsers at '//' (refuted for the unrepaired parsers). On every run the real ReadSeqFileChunk is driven with every buffer size 1..|file|+1 over generated well-formed files (folding, CRLF, blank lines, '@'/'+' quality lines, '>' '@' '+' in headers, with/without trailing newline, records with/without taxon) through several reader kinds, every chunk is parsed by the real chunk parser and compared with the generator's records (direct oracle); chunks, splitter answers and parsed records are compared with the model by vm_compute; the public readers (1..8 workers, files larger than the 1 MiB buffer) and the obiconvert binary (file, stdin, gzip) are compared with the expected records.",
-    note="Trusted: Coq kernel + vm_compute; io.ReadFull modelled by its documentation (this is what makes transports equal: short reads are hidden), bufio byte/line reading, strings/strconv helpers on ASCII; harness and generators. 'Well-formed' in the composition theorems means: accepted by the chunk parser as one chunk and ending inside/after the last record (flat files: after the last '//' line, possibly followed by empty LF lines; CRLF blank lines after it are covered dynamically only). The kseq C reader (stdin before the C17 repair), channels/goroutines and IParseFastSeqHeaderBatch are exercised, not modelled (Common/Reseq.v is the model of SortBatches). Feature tables (withFeatureTable) are not observed.")
-TRUSTED = ["io.ReadFull modelled by its documented meaning (n bytes or EOF / ErrUnexpectedEOF), bufio.Reader.ReadByte/ReadLine and bufio.Scanner as plain byte / line iteration",
+    text="Rocq theorems over an executable transcription of ReadSeqFileChunk, the three record splitters, the FASTA/FASTQ byte state machines and the GenBank/EMBL line parsers: for EVERY splitter answering inside its buffer, buffer size and file the chunks are numbered 0..n-1, are the CR/LF-stripped consecutive segments of the file, only CR/LF bytes fall outside and cuts happen only where the splitter answered (C01_chunker_partition); the splitters only answer at record starts (FASTA: '>' after CR/LF; FASTQ: an '@' line followed by a sequence-alphabet line, proved to be rejected by the parser anywhere but at a record boundary, so quality lines starting with '@'/'+' are never cut; flat: after LF // CR? LF); composition theorems C01_read_fasta / _fastq / _genbank / _embl (+ _any_order): for every text the chunk parser accepts as a whole, every buffer size and every arrival order of the parsed batches (Common/Reseq) the records delivered are the records of the file in order -- flat files may end with ANY CR/LF bytes after the last '//' (LF, CR LF, stray CR: flat_inv3). All four formats have an independent printer specification closed by a round-trip theorem and a whole-reader theorem (C01_{fasta,fastq,genbank,embl}_print_parse, C01_read_*_printed): FASTA/FASTQ with any folding, LF/CRLF, blank lines, definitions, any quality bytes incl. leading '@'/'+', nucleotides in upper/lower/mixed case delivered lower-cased; GenBank/EMBL with multi-line DEFINITION / DE (padded, joined by one blank), arbitrary non-keyword header and feature lines, SOURCE / OS present or absent, /db_xref=\"taxon:N\" present or absent (taxid 1), numbered ORIGIN blocks / EMBL sequence lines with padding and position, any case, LF or CR LF per record, empty lines after any '//'. io.ReadFull over any schedule of short reads equals one read of the whole data (C01_readfull_any_transport); record independence of the flat parsers at '//' (refuted for the unrepaired parsers). On every run the real ReadSeqFileChunk is driven with every buffer size 1..|file|+1 over generated well-formed files through several reader kinds, every chunk is parsed by the real chunk parser and compared with the generator's records (direct oracle); chunks, splitter answers and parsed records are compared with the model by vm_compute; flat files written by the Python twin of the printers are DECIDED inside Coq to be print_gb / print_embl of valid layouts (pcase_ok), so C01_printed_case_genbank / _embl apply to the very bytes the real parsers read; the public readers (1..8 workers; files larger than the 1 MiB buffer, a record ending exactly at / next to the buffer end, a one-line record longer than the buffer, blank-only files, flat files cut into many chunks through the hook VerifFlatFileChunkSize, full-file batch mode) and the obiconvert binary (file, stdin, gzip) are compared with the expected records.",
+    note="Trusted: Coq kernel + vm_compute; io.ReadFull modelled by its documentation (this is what makes transports equal: short reads are hidden), bufio byte/line reading (bufio.Scanner's 64 KiB token limit is NOT modelled: EMBL lines are assumed shorter; valid_embl bounds them by 1000), strings/strconv helpers on ASCII (Atoi overflow not modelled: valid layouts have at most 18 digits); harness and generators. 'Well-formed' in the composition theorems means: accepted by the chunk parser as one chunk and ending inside/after the last record (flat files: after the last '//' line followed by any CR/LF bytes; a last '//' without line end is covered dynamically only); in the printer theorems: the image of the printers on valid layouts (GenBank lines <= 100 bytes as the parser demands, one taxon cross-reference per record, CONTIG records not printed). The public readers deliver NUMBERED batches: their arrival order is not the file order for any format (header-parsing worker pool after SortBatches); the check requires numbers 0..n-1 whose concatenation in number order is the file, and ONE ordered batch in full-file batch mode. The kseq C reader (stdin before the C17 repair), channels/goroutines and IParseFastSeqHeaderBatch are exercised, not modelled (Common/Reseq.v is the model of SortBatches). Feature tables (withFeatureTable) are not observed. Fixed in round 2: ReadGenbank/ReadEMBL never terminated in full-file batch mode and did not sort their batches.")
+TRUSTED = ["io.ReadFull modelled by its documented meaning (n bytes or EOF / ErrUnexpectedEOF), bufio.Reader.ReadByte/ReadLine and bufio.Scanner as plain byte / line iteration (Scanner's 64 KiB token limit not modelled)",
            "strings.TrimSpace / SplitN / HasPrefix / strconv.Atoi of the flat-file parsers modelled on ASCII input (Atoi overflow not modelled)",
-           "Go channels / goroutines between ReadSeqFileChunk, the parser workers and SortBatches: modelled as an arbitrary permutation of the numbered batches fed to Common/Reseq.v"]
+           "Go channels / goroutines between ReadSeqFileChunk, the parser workers and SortBatches: modelled as an arbitrary permutation of the numbered batches fed to Common/Reseq.v",
+           "the Python twin of print_gb / print_embl is NOT trusted: its output is compared byte for byte with the Coq printers on every run (print_mismatches)"]
 
 FMT = dict(fasta=0, fastq=1, genbank=2, embl=3)
 EOLS = (10, 13)
@@ -54,8 +55,12 @@ def gen_header(rng):
     sep = ""
     k = rng.random()
     if k < 0.55:
-        sep = rng.choice([" ", "\t", "  ", " \t"])
-        d = rand_text(rng, DEFCH, rng.choice([1, 2, 4, 9, 15])).strip(" ")
+        sep = rng.choice([" ", "\t", "  ", " \t", "\t\t", "   ", "\t "])
+        d = rand_text(rng, DEFCH, rng.choice([1, 2, 4, 9, 15, 30])).strip(" ")
+        if rng.random() < 0.3:      # several words separated by tabs / runs of blanks, tokens starting with '@' '>' '+'
+            words = [rng.choice(["", "", "@", ">", "+"]) + rand_text(rng, IDCH, rng.choice([1, 2, 4])) for _ in range(rng.choice([2, 3, 5]))]
+            d = "".join(w + rng.choice([" ", "  ", "\t", " \t "]) for w in words[:-1]) + words[-1]
+        d = d.lstrip(" \t")
         if not d:
             d = "x"
         if rng.random() < 0.25:
@@ -143,7 +148,7 @@ def gen_flat(rng, fmt, nrec, lay):
     for k in range(nrec):
         rid = rand_text(rng, "ABCXYZ0123456789_", rng.choice([2, 6, 8]))
         n = rng.choice([1, 9, 10, 11, 25, 60, 61, 75])
-        s = rand_text(rng, "acgtn", n)
+        s = rand_text(rng, rng.choice(["acgtn", "acgtn", "ACGTN", "acgtnACGTNryRY"]), n)      # lower, upper or mixed case: delivered lower-cased
         ndef = rng.choice([0, 1, 1, 2, 3])
         deflines = [rand_text(rng, "abc xyz,.()", rng.choice([3, 8, 20])).strip() or "d" for _ in range(ndef)]
         deflines = [d + rng.choice([" ta//", "//", " c//"]) if rng.random() < 0.4 else d for d in deflines]   # "//" at the end of a line that is not a terminator
@@ -155,29 +160,39 @@ def gen_flat(rng, fmt, nrec, lay):
         if fmt == "genbank":
             L.append("LOCUS       %s %d bp    DNA     linear   PLN 01-JAN-2000" % (rid.ljust(16), n))
             if ndef:
-                L.append("DEFINITION  " + deflines[0])
+                L.append("DEFINITION  " + rng.choice(["", " "]) + deflines[0] + rng.choice(["", "", "  "]))
                 for dl in deflines[1:]:
-                    L.append("            " + dl)
+                    L.append("            " + rng.choice(["", "  "]) + dl + rng.choice(["", " "]))
             L.append("ACCESSION   " + rid)
+            if rng.random() < 0.5:
+                L += ["VERSION     %s.1" % rid, "KEYWORDS    ."]
             if has_src:
-                L.append("SOURCE      " + org)
+                L.append("SOURCE      " + org + rng.choice(["", " "]))
                 L.append("  ORGANISM  " + org)
+                if rng.random() < 0.5:
+                    L.append("            Eukaryota; Metazoa; Chordata.")
             L.append("FEATURES             Location/Qualifiers")
             L.append("     source          1..%d" % n)
             L.append('                     /organism="%s"' % org)
             if has_tax:
                 L.append('                     /db_xref="taxon:%d"' % taxid)
-            L.append("ORIGIN")
+            if rng.random() < 0.5:
+                L.append('                     /mol_type="genomic DNA"')
+            L.append("ORIGIN" + rng.choice(["", "      "]))
             L += gb_origin(s)
             L.append("//")
             d = " ".join(x.strip() for x in deflines)
         else:
             L.append("ID   %s; SV 1; linear; genomic DNA; STD; PLN; %d BP." % (rid, n))
             L.append("XX")
+            if rng.random() < 0.5:
+                L += ["AC   %s;" % rid, "XX"]
             for dl in deflines:
-                L.append("DE   " + dl)
+                L.append("DE   " + dl + rng.choice(["", " "]))
             if has_src:
                 L.append("OS   " + org)
+                if rng.random() < 0.5:
+                    L.append("OC   Eukaryota; Metazoa; Chordata.")
             L.append("FH   Key             Location/Qualifiers")
             L.append("FH")
             L.append("FT   source          1..%d" % n)
@@ -188,16 +203,240 @@ def gen_flat(rng, fmt, nrec, lay):
             L.append("//")
             d = " ".join(x.strip() for x in deflines)
         lines_all.append(L)
-        recs.append(dict(id=rid, d=d, seq=s, qual=None, taxid=taxid if has_tax else 1, sci=org if has_src else ""))
+        recs.append(dict(id=rid, d=d, seq=s.lower(), qual=None, taxid=taxid if has_tax else 1, sci=org if has_src else ""))
     e = "\r\n" if lay["eol"] == "\r\n" else "\n"
     body = ""
     for i, L in enumerate(lines_all):
         body += e.join(L)
         if i < len(lines_all) - 1 or lay["trail"]:
             body += e
+            if lay["blank"] and rng.random() < 0.3:
+                body += rng.choice([e, "\n", "\r\n", e + e])        # empty lines between records
     if lay["trail"] == 2:
-        body += e
+        # empty lines after the last "//": LF, CR LF, mixed, a stray CR
+        body += rng.choice([e, e + e, "\r\n", "\r\n\r\n", "\n\r\n", "\r\n\n\n", "\r\r\n", "\n\n\n"])
     return body.encode(), recs
+
+
+def gen_big_flat(rng, fmt, nsmall, nbig):
+    """one record with a long sequence followed by nsmall small ones (LF, trailing newline)"""
+    s = rand_text(rng, "acgt", nbig)
+    if fmt == "genbank":
+        L = ["LOCUS       BIG000001 %d bp    DNA     linear   PLN 01-JAN-2000" % nbig, "DEFINITION  big one", "FEATURES             Location/Qualifiers", "ORIGIN"] + gb_origin(s) + ["//"]
+    else:
+        L = ["ID   BIG000001; SV 1; linear; genomic DNA; STD; PLN; %d BP." % nbig, "DE   big one", "SQ   Sequence %d BP;" % nbig] + embl_seq(s) + ["//"]
+    data1, recs1 = gen_flat(rng, fmt, nsmall, dict(eol="\n", blank=False, trail=1))
+    return ("\n".join(L) + "\n").encode() + data1, [dict(id="BIG000001", d="big one", seq=s, qual=None, taxid=1, sci="")] + recs1
+
+
+def gen_boundary(rng, fmt, target):
+    """a file whose k-th record ends (with its newline) exactly at offset `target`, followed by more records"""
+    parts, recs, size, k = [], [], 0, 0
+
+    def one(rid, sq):
+        if fmt == "fastq":
+            q = ("@+I5"[len(recs) % 4]) * len(sq)
+            recs.append(dict(id=rid, d="", seq=sq.lower(), qual=[ord(c) - 33 for c in q], taxid=None, sci=""))
+            return "@%s\n%s\n+\n%s\n" % (rid, sq, q)
+        recs.append(dict(id=rid, d="", seq=sq.lower(), qual=None, taxid=None, sci=""))
+        return ">%s\n%s\n" % (rid, sq)
+    pool = [rand_text(rng, SEQCH, 120) for _ in range(16)]
+    while True:
+        t = one("b%d" % k, pool[k % 16])
+        if size + len(t) > target - 400:
+            recs.pop()
+            break
+        parts.append(t); size += len(t); k += 1
+    over = len(one("b%d" % k, "a")) - (2 if fmt == "fastq" else 1)
+    recs.pop()
+    n = target - size - over
+    n = n // 2 if fmt == "fastq" else n
+    t = one("b%d" % k, rand_text(rng, "ACGTacgt", n))
+    if size + len(t) != target:           # fastq with an odd remainder: one more byte in the identifier
+        recs.pop()
+        t = one("b%dx" % k, rand_text(rng, "ACGTacgt", n))
+    parts.append(t); size += len(t)
+    assert size == target, (size, target)
+    for j in range(40):
+        parts.append(one("a%d" % j, pool[j % 16]))
+    return "".join(parts).encode(), recs
+
+
+def gen_long_line(rng, fmt, n):
+    """three records; the second one has its n nucleotides on ONE line (longer than the read buffer)"""
+    recs, parts = [], []
+    unit = rand_text(rng, "ACGTacgtnN", 1000)
+    for rid, sq in (("s1", "acgtACGT"), ("long", (unit * (n // 1000 + 1))[:n]), ("s3", "ttga")):
+        if fmt == "fastq":
+            q = "I" * len(sq)
+            parts.append("@%s some text\n%s\n+\n%s\n" % (rid, sq, q))
+            recs.append(dict(id=rid, d="some text", seq=sq.lower(), qual=[40] * len(sq), taxid=None, sci=""))
+        else:
+            parts.append(">%s some text\n%s\n" % (rid, sq))
+            recs.append(dict(id=rid, d="some text", seq=sq.lower(), qual=None, taxid=None, sci=""))
+    return "".join(parts).encode(), recs
+
+
+# ------------------------------------------------------------------ flat files as images of the Coq printers (Flat.v: print_gb / print_embl)
+def mixcase(rng, s):
+    k = rng.random()
+    return s if k < 0.4 else s.upper() if k < 0.6 else "".join(c.upper() if rng.random() < 0.5 else c for c in s)
+
+
+def gen_pad3(rng, text):
+    return (rng.choice(["", "", " ", "  "]), text, rng.choice(["", "", " ", "   "]))
+
+
+def trimmed_text(rng, n):
+    t = rand_text(rng, "abc xyz,.()/;", n).strip()
+    return t
+
+
+def gen_gb_layout(rng):
+    rid = rand_text(rng, "ABCXYZ0123456789_.", rng.choice([1, 6, 8]))
+    n = rng.choice([0, 1, 9, 10, 11, 25, 60, 61, 75, 130])
+    s = rand_text(rng, "acgtnryk", n)
+    org = rng.choice(ORGS)
+    lay = dict(eol=rng.choice(["\n", "\n", "\r\n"]),
+               locus=rng.choice(["", " ", " %d bp    DNA     linear   PLN 01-JAN-2000" % n, "  x"]),
+               defs=[gen_pad3(rng, trimmed_text(rng, rng.choice([3, 8, 20, 60])) or "d") for _ in range(rng.choice([0, 1, 1, 2, 4]))],
+               hdr1=rng.sample(["ACCESSION   " + rid, "VERSION     %s.1" % rid, "KEYWORDS    .", "DBLINK      BioProject: PRJ1", "", "  junk //", "LOCUS", "ORIGI"], rng.choice([0, 1, 3])),
+               src=None, feat=rng.choice(["", "         Location/Qualifiers", " x"]), ft1=[], xref=None, ft2=[],
+               origin=rng.choice(["", "      ", " junk"]), seq=[], blank=[rng.choice(["\n", "\r\n"]) for _ in range(rng.choice([0, 0, 1, 3]))])
+    sci = ""
+    if rng.random() < 0.7:
+        sci = org if rng.random() < 0.85 else ""
+        lay["src"] = (rng.choice(["", " "]), rng.choice(["", " ", "  "]),
+                      rng.sample(["  ORGANISM  " + org, "            Eukaryota; Metazoa; Chordata.", "REFERENCE   1  (bases 1 to %d)" % n, "  AUTHORS   Doe,J.", ""], rng.choice([0, 2, 4])))
+    ftpool = ["     source          1..%d" % n, '                     /organism="%s"' % org, '                     /mol_type="genomic DNA"',
+              '                     /db_xref="GI:12345"', "     gene            1..5", ""]
+    lay["ft1"] = rng.sample(ftpool, rng.choice([0, 2, 3]))
+    taxid = 1
+    if rng.random() < 0.6:
+        taxid = rng.choice([2, 9606, 45372, 562, 77133, 0, 123456789012345])
+        lay["xref"] = (rng.choice(["", "00"]) + str(taxid), rng.choice(["", "", " extra", '"']))
+        lay["ft2"] = rng.sample(ftpool, rng.choice([0, 1, 2]))
+    pos, perline = 0, rng.choice([60, 60, 30, 10])
+    while pos < n:
+        chunk = s[pos:pos + perline]
+        w = rng.choice([10, 10, 5]) if perline > 10 else 10
+        groups = [mixcase(rng, chunk[j:j + w]) for j in range(0, len(chunk), w)][:6]
+        used = sum(len(g) for g in groups)
+        lay["seq"].append(("%9d " % (pos + 1), groups))
+        pos += used
+    seq = "".join(g for _, gs in lay["seq"] for g in gs).lower()
+    texts = [t for (_, t, _) in lay["defs"]]
+    d = "" if not texts else texts[0] + "".join(" " + t for t in texts[1:])
+    return lay, dict(id=rid, d=d, seq=seq, qual=None, taxid=taxid, sci=sci)
+
+
+def gb_lines(lay, r):
+    L = ["LOCUS       " + r["id"] + lay["locus"]]
+    for k, (a, t, b) in enumerate(lay["defs"]):
+        L.append(("DEFINITION  " if k == 0 else " " * 12) + a + t + b)
+    L += lay["hdr1"]
+    if lay["src"] is not None:
+        a, b, h2 = lay["src"]
+        L.append("SOURCE      " + a + r["sci"] + b)
+        L += h2
+    L.append("FEATURES    " + lay["feat"])
+    L += lay["ft1"]
+    if lay["xref"] is not None:
+        L.append(" " * 21 + '/db_xref="taxon:' + lay["xref"][0] + '"' + lay["xref"][1])
+    L += lay["ft2"]
+    L.append("ORIGIN" + lay["origin"])
+    L += [pre + " ".join(gs) for pre, gs in lay["seq"]]
+    L.append("//")
+    return L
+
+
+def gen_embl_layout(rng):
+    rid = rand_text(rng, "ABCXYZ0123456789_. ", rng.choice([1, 6, 8])).strip() or "X1"
+    n = rng.choice([0, 1, 9, 10, 11, 25, 60, 61, 75, 130])
+    s = rand_text(rng, "acgtnryk", n)
+    org = rng.choice(ORGS)
+    ign = ["XX", "AC   %s;" % rid, "DT   01-JAN-2000 (Rel. 1, Created)", "KW   .", "", "OC   Eukaryota; Metazoa.", "FH   Key             Location/Qualifiers", "FH",
+           "FT   source          1..%d" % n, 'FT                   /organism="%s"' % org, 'FT                   /mol_type="genomic DNA"', "SQ   Sequence %d BP;" % n, "ID", "// x", " //"]
+    lay = dict(eol=rng.choice(["\n", "\n", "\r\n"]), idrest=rng.choice(["", ";", "; SV 1; linear; genomic DNA; STD; PLN; %d BP." % n]),
+               hdr1=rng.sample(ign, rng.choice([0, 1, 3])),
+               defs=[gen_pad3(rng, trimmed_text(rng, rng.choice([3, 8, 20, 60])) or "d") for _ in range(rng.choice([0, 1, 1, 2, 4]))],
+               hdr2=rng.sample(ign, rng.choice([0, 1, 2])), src=None, hdr3=rng.sample(ign, rng.choice([0, 2, 5])), xref=None,
+               hdr4=rng.sample(ign, rng.choice([0, 1, 3])), seq=[], blank=[rng.choice(["\n", "\r\n"]) for _ in range(rng.choice([0, 0, 1, 3]))])
+    sci = ""
+    if rng.random() < 0.7:
+        sci = org if rng.random() < 0.85 else ""
+        lay["src"] = (rng.choice(["", " "]), rng.choice(["", " ", "  "]))
+    taxid = 1
+    if rng.random() < 0.6:
+        taxid = rng.choice([2, 9606, 45372, 562, 77133, 0, 123456789012345])
+        lay["xref"] = (rng.choice(["", "00"]) + str(taxid), rng.choice(["", "", " extra", '"']))
+    pos = 0
+    while pos < n:
+        chunk = s[pos:pos + 60]
+        groups = [mixcase(rng, chunk[j:j + 10]) for j in range(0, len(chunk), 10)]
+        pos += len(chunk)
+        k = rng.random()
+        if len(groups) == 6:
+            tail = rng.choice(["%9d" % pos, "", "  x y"])
+        elif k < 0.6:             # the real layout: padded with blanks up to the position column
+            body = " ".join(groups)
+            rest = (" " * (66 - len(body))) + ("%9d" % pos)        # what follows the blank after the last group
+            # as a split at the first 6 blanks: the missing groups are empty strings
+            parts = (body + " " + rest).split(" ", 6)
+            groups, tail = parts[:6], parts[6]
+        else:
+            tail = rng.choice(["%d" % pos, "", "x"])
+        lay["seq"].append((groups, tail))
+    seq = "".join(g for gs, _ in lay["seq"] for g in gs).lower()
+    texts = [t for (_, t, _) in lay["defs"]]
+    d = "" if not texts else texts[0] + "".join(" " + t for t in texts[1:])
+    return lay, dict(id=rid.split(";")[0], d=d, seq=seq, qual=None, taxid=taxid, sci=sci)
+
+
+def embl_lines(lay, r):
+    L = ["ID   " + r["id"] + lay["idrest"]] + lay["hdr1"]
+    L += ["DE   " + a + t + b for (a, t, b) in lay["defs"]]
+    L += lay["hdr2"]
+    if lay["src"] is not None:
+        L.append("OS   " + lay["src"][0] + r["sci"] + lay["src"][1])
+    L += lay["hdr3"]
+    if lay["xref"] is not None:
+        L.append("FT" + " " * 19 + '/db_xref="taxon:' + lay["xref"][0] + '"' + lay["xref"][1])
+    L += lay["hdr4"]
+    L += ["     " + " ".join(gs + [tail]) for gs, tail in lay["seq"]]
+    L.append("//")
+    return L
+
+
+def gen_layout_file(rng, fmt, nrec):
+    """(bytes, records, Coq term `PGb lrs bytes` / `PEm lrs bytes`): a file written by the Python twin of the Coq printer"""
+    lrs, out = [], ""
+    for _ in range(nrec):
+        lay, r = (gen_gb_layout if fmt == "genbank" else gen_embl_layout)(rng)
+        L = (gb_lines if fmt == "genbank" else embl_lines)(lay, r)
+        out += "".join(l + lay["eol"] for l in L) + "".join(lay["blank"])
+        lrs.append((lay, r))
+    data = out.encode()
+    return data, [r for _, r in lrs], "%s [%s] %s" % ("PGb" if fmt == "genbank" else "PEm", "; ".join(layout_term(fmt, lay, r) for lay, r in lrs), bytes_coq(data))
+
+
+def lls(ls):
+    return "[" + "; ".join(nl(x) for x in ls) + "]"
+
+
+def layout_term(fmt, lay, r):
+    pds = "[" + "; ".join("mkpd %s %s %s" % (nl(a), nl(t), nl(b)) for a, t, b in lay["defs"]) + "]"
+    xref = "None" if lay["xref"] is None else "(Some (%s, %s))" % (nl(lay["xref"][0]), nl(lay["xref"][1]))
+    blank = lls(lay["blank"])
+    if fmt == "genbank":
+        src = "None" if lay["src"] is None else "(Some (%s, %s, %s))" % (nl(lay["src"][0]), nl(lay["src"][1]), lls(lay["src"][2]))
+        seq = "[" + "; ".join("(%s, %s)" % (nl(pre), lls(gs)) for pre, gs in lay["seq"]) + "]"
+        t = "mkgbl %s %s %s %s %s %s %s %s %s %s %s %s" % (nl(lay["eol"]), nl(lay["locus"]), pds, lls(lay["hdr1"]), src, nl(lay["feat"]), lls(lay["ft1"]), xref, lls(lay["ft2"]), nl(lay["origin"]), seq, blank)
+    else:
+        src = "None" if lay["src"] is None else "(Some (%s, %s))" % (nl(lay["src"][0]), nl(lay["src"][1]))
+        seq = "[" + "; ".join("(%s, %s)" % (lls(gs), nl(tail)) for gs, tail in lay["seq"]) + "]"
+        t = "mkeml %s %s %s %s %s %s %s %s %s %s %s" % (nl(lay["eol"]), nl(lay["idrest"]), lls(lay["hdr1"]), pds, lls(lay["hdr2"]), src, lls(lay["hdr3"]), xref, lls(lay["hdr4"]), seq, blank)
+    return "(%s, %s)" % (t, rec_term(r))
 
 
 def gen_file(rng, fmt, nrec=None):
@@ -243,6 +482,15 @@ CORPUS = [
     ("fasta", b"\n\n\n>a\nac\n\n>b\nc\n", None, "chunks-only:leading-eols"),
     ("fastq", b"\r\n\r\n\n@a\nac\n+\nII\n@b\nc\n+\nI\n", None, "chunks-only:leading-eols"),
     ("genbank", b"\n\n//\n\n\n//\nLOCUS\n//\n", None, "chunks-only:empty-records"),
+    # files made of empty lines only: no chunk, no record
+    ("fasta", b"\n\n\n", None, "chunks-only:blank-only"), ("fasta", b"\r\n\r\n", None, "chunks-only:blank-only"),
+    ("fastq", b"\n", None, "chunks-only:blank-only"), ("fastq", b"\r\n\n\r\n", None, "chunks-only:blank-only"),
+    ("genbank", b"\n\r\n\n", None, "chunks-only:blank-only"), ("embl", b"\r\n\r\n", None, "chunks-only:blank-only"),
+    # upper-case nucleotides in flat files; CR LF empty lines after the last "//"
+    ("genbank", GB2.replace("acgtacgtac gt", "ACGTACGTAC gT").replace("\n", "\r\n").encode() + b"\r\n\r\n",
+     [rec("AB000001", "first record with taxon.", "acgtacgtacgt", None, 9606, "Homo sapiens"), rec("AB000002", "second record without taxon.", "ttttt", None, 1, "")], "upper-case+crlf-blank-tail"),
+    ("embl", EMBL2.replace("acgtacgtac gt", "ACGTacgtAC GT").encode() + b"\r\n\n",
+     [rec("X00001", "first record", "acgtacgtacgt", None, 9606, "Homo sapiens"), rec("", "second record without ID, OS, taxon", "ttttt", None, 1, "")], "upper-case+blank-tail"),
     ("genbank", GB2.encode(), [rec("AB000001", "first record with taxon.", "acgtacgtacgt", None, 9606, "Homo sapiens"),
                                rec("AB000002", "second record without taxon.", "ttttt", None, 1, "")], "fixed:flat-accumulators"),
     ("embl", EMBL2.encode(), [rec("X00001", "first record", "acgtacgtacgt", None, 9606, "Homo sapiens"),
@@ -351,7 +599,7 @@ def run_transports(ctx, files, broken):
                 transports.append(("gzip-stdin", [exe], open(path + ".gz", "rb").read()))
             for name, argv, stdin in transports:
                 try:
-                    pr = subprocess.run(argv, input=stdin, capture_output=True, timeout=60)
+                    pr = subprocess.run(argv, input=stdin, capture_output=True, timeout=45)
                     outs[name] = (pr.returncode, pr.stdout.decode("latin1"))
                 except subprocess.TimeoutExpired:
                     outs[name] = (124, "")
@@ -382,8 +630,17 @@ def run(ctx, broken):
         for _ in range(n):
             data, recs = gen_file(rng, fmt)
             files.append((fmt, data, recs, "gen"))
+    layout_terms = []
+    for fmt in ("genbank", "embl"):
+        for _ in range(5 if ctx.quick else 60):
+            data, recs, term = gen_layout_file(rng, fmt, rng.choice([1, 2, 2] if ctx.quick else [1, 2, 3, 5]))
+            files.append((fmt, data, recs, "layout"))
+            layout_terms.append((len(files) - 1, term))
     maxlen = 330 if ctx.quick else 700
-    files = [f for f in files if len(f[1]) <= (maxlen if f[0] in ("fasta", "fastq") else 3 * maxlen) or f[3] != "gen"]
+    keep = [i for i, f in enumerate(files) if len(f[1]) <= (maxlen if f[0] in ("fasta", "fastq") else 3 * maxlen) or f[3] != "gen"]
+    renum = {old: new for new, old in enumerate(keep)}
+    files = [files[i] for i in keep]
+    layout_terms = [(renum[i], t) for i, t in layout_terms]
 
     # 1. termination witness (one process of its own: a spinning goroutine must not slow the others down)
     hang_case = dict(kind="sweep", fmt="fasta", file=b64(b">a\nacgt\n>b\nac\n"), bmin=1, bmax=1, rd="bytes", withq=True, shift=33, time_ms=1500)
@@ -446,7 +703,8 @@ def run(ctx, broken):
                 parse_texts.setdefault((fmt, c["withq"], data[st:st + ln]), None)
         if c["rd"] == "bytes" and c["withq"]:
             if len(data) > 150:      # the model evaluates every buffer size on small files, a sample on larger ones (cost ~ |file|^2 log |file|)
-                keep = set(range(3, 9)) | {rng.randrange(9, len(data) + 2) for _ in range(12 if ctx.quick else 60)} | {len(data) - 1, len(data), len(data) + 1}
+                nb = (4 if len(data) > 600 else 12) if ctx.quick else 60
+                keep = (set(range(3, 9)) if len(data) <= 600 else {4, 7}) | {rng.randrange(9, len(data) + 2) for _ in range(nb)} | {len(data) - 1, len(data), len(data) + 1}
                 per_b = [x for x in per_b if x[0] in keep]
             sweep_terms.append((ci, "CSweep %d%%nat %s ([%s])%%nat" % (FMT[fmt], bytes_coq(data), "; ".join(
                 "(%d, [%s])" % (b, "; ".join("(%d,%d,%d)" % tuple(t) for t in ch)) for b, ch in per_b))))
@@ -463,6 +721,12 @@ def run(ctx, broken):
             for _ in range(2):
                 a = rng.randrange(0, len(data))
                 ptexts.append((fmt, True, data[a:rng.randrange(a + 1, len(data) + 1)]))
+    # chunks of fewer than two bytes (FastaChunkParser reads start[0], start[1] of Peek(20) unchecked: panic = fatal), blank-only texts
+    for t in (b"", b">", b">\n", b">a", b"\n", b">a\n", b">a\nA", b"@", b"@a\nA\n+\nI"):
+        ptexts.append(("fastq" if t[:1] == b"@" else "fasta", True, t))
+    for f in ("genbank", "embl"):
+        for t in (b"", b"\n\n", b"\r\n\r\r\n", b"//", b"//\n", b"\r"):
+            ptexts.append((f, True, t))
     pcases = [dict(kind="parse", fmt=f, file=b64(t), withq=wq, shift=33) for (f, wq, t) in ptexts]
     pobs = ctx.vh_robust("c01", pcases, timeout=300, one_timeout=20)
     sbufs = list(split_bufs.keys())
@@ -507,6 +771,16 @@ def run(ctx, broken):
     if bad is not None:
         bad2, err = ctx.correspond("main", IMPORTS, terms[:nrf] + terms[nrf + nsw:], shard=60)
         bad = None if bad2 is None else [nrf + i for i in bad] + [i if i < nrf else nsw + i for i in bad2]
+    # the files written by the Python twin of the printers ARE print_gb / print_embl of valid layouts (decided inside Coq:
+    # valid_gbb / valid_emblb + list_eqb), so pcase_gb_sound / pcase_embl_sound apply to the very bytes the real code parsed
+    pbad, perr = ctx.correspond("print", IMPORTS + "From OBI.C01 Require Import FlatModel.\n", [t for _, t in layout_terms], fn="print_mismatches", shard=4)
+    if pbad is None:
+        broken.append(dict(kind="correspondence", detail=perr))
+    elif pbad:
+        fi = layout_terms[pbad[0]][0]
+        broken.append(dict(kind="correspondence", name="corr:C01/printer", n_diverging=len(pbad),
+                           first_diverging_case=dict(kind="printer", fmt=files[fi][0], file_text=files[fi][1].decode("latin1"), records=files[fi][2], term=layout_terms[pbad[0]][1][:3000])))
+    ctx.cov["printer_image_cases"] = len(layout_terms)
     T["correspondence_s"] = round(time.time() - t0, 1); t0 = time.time()
     ctx.cov["phase_s"] = T
     if bad is None:
@@ -550,11 +824,53 @@ def run(ctx, broken):
                 recs.append(dict(id=rid, d=d, seq=sq.lower(), qual=None, taxid=None, sci=""))
         files.append((fmt, "".join(parts).encode(), recs, "big"))
         rcases.append(dict(kind="read", fmt=fmt, file=b64(files[-1][1]), rd=rng.choice(["bytes", "pipe"]), withq=True, shift=33, workers=nw, _f=len(files) - 1))
-    robs = ctx.vh_robust("c01", [{k: v for k, v in c.items() if not k.startswith("_")} for c in rcases], timeout=300, one_timeout=60)
+    # a record that ends exactly at / one byte before / one byte after the 1 MiB read buffer, and a record (one line of
+    # sequence) longer than the buffer: the splitter answers -1 on the first buffer and the reader has to extend it
+    MIB = 1024 * 1024
+    for fmt in ("fasta", "fastq"):
+        for delta in ([rng.choice([-1, 0, 1])] if ctx.quick else [-1, 0, 1, 2]):
+            data, recs = gen_boundary(rng, fmt, MIB + delta)
+            files.append((fmt, data, recs, "big"))
+            rcases.append(dict(kind="read", fmt=fmt, file=b64(data), rd="bytes", withq=True, shift=33, workers=rng.choice([2, 4]), _f=len(files) - 1))
+        data, recs = gen_long_line(rng, fmt, MIB + 150000)
+        files.append((fmt, data, recs, "big"))
+        rcases.append(dict(kind="read", fmt=fmt, file=b64(data), rd=rng.choice(["bytes", "pipe"]), withq=True, shift=33, workers=3, _f=len(files) - 1))
+    # files made of empty lines only: no record
+    for fi, (fmt, data, recs, tag) in enumerate(files):
+        if tag == "chunks-only:blank-only":
+            files.append((fmt, data, [], "blank-only"))
+            rcases.append(dict(kind="read", fmt=fmt, file=b64(data), rd="bytes", withq=True, shift=33, workers=2, flatb=rng.choice([0, 2]), full=rng.random() < 0.5, _f=len(files) - 1))
+    # flat files cut into many chunks (read buffer lowered through the verif hook VerifFlatFileChunkSize; 128 MiB in
+    # production): the first record is long, so that the worker parsing chunk 0 finishes after its neighbours
+    for fmt, nw, full in (("genbank", 4, True), ("embl", 8, True), ("genbank", 3, False), ("embl", 2, False), (rng.choice(["genbank", "embl"]), 1, True)):
+        data, recs = gen_big_flat(rng, fmt, 60 if ctx.quick else 400, 60000 if ctx.quick else 300000)
+        files.append((fmt, data, recs, "big"))
+        rcases.append(dict(kind="read", fmt=fmt, file=b64(data), rd=rng.choice(["bytes", "pipe"]), withq=True, shift=33, workers=nw, flatb=rng.choice([1024, 4096]), full=full, _f=len(files) - 1))
+    for fi, (fmt, data, recs, tag) in enumerate(files):
+        if fmt in ("genbank", "embl") and recs is not None and tag != "big" and len(recs) >= 2:
+            end1 = data.find(b"\n//") + 3
+            end1 = data.find(b"\n", end1) + 1            # offset of the byte that follows the first "//" line
+            for flatb in {rng.choice([2, 16, 100, 300]), end1 + rng.choice([-1, 0, 1])}:     # ... a buffer that ends exactly there
+                rcases.append(dict(kind="read", fmt=fmt, file=b64(data), rd="bytes", withq=True, shift=33, workers=rng.choice([2, 3, 8]), flatb=flatb, full=rng.random() < 0.6, _f=fi))
+    # the two files larger than 1 MiB again, delivered as ONE batch (OptionsFullFileBatch)
+    for c in [c for c in rcases if files[c["_f"]][3] == "big" and c["fmt"] in ("fasta", "fastq")]:
+        rcases.append(dict(c, full=True))
+    for c in rcases:       # a reader that does not finish (deadlock) is a violation; generous deadlines (the machine may be heavily loaded)
+        c["time_ms"] = 40000 if files[c["_f"]][3] == "big" else 20000
+    t0 = time.time()
+    robs = ctx.vh_robust("c01", [{k: v for k, v in c.items() if not k.startswith("_")} for c in rcases], timeout=900, one_timeout=90)
+    T["readers_s"] = round(time.time() - t0, 1); t0 = time.time()
     for ci, (c, o) in enumerate(zip(rcases, robs)):
         fmt, data, recs, tag = files[c["_f"]]
         got = None if (o.get("kind") == "crash" or o.get("fatal")) else [obs_rec(r) for r in o.get("recs") or []]
         dist["read/%s" % fmt] = dist.get("read/%s" % fmt, 0) + 1
+        orders = o.get("orders") or []
+        if len(orders) >= 2:
+            dist["read_multi_batch/%s" % fmt] = dist.get("read_multi_batch/%s" % fmt, 0) + 1
+        if orders != list(range(len(orders))):
+            dist["read_arrival_not_in_file_order/%s" % fmt] = dist.get("read_arrival_not_in_file_order/%s" % fmt, 0) + 1      # allowed: the batch numbers carry the order
+        if c.get("full") and got is not None and not o.get("err") and len(orders) != (1 if recs else 0):
+            o["err"] = "full-file batch mode delivered %d batches" % len(orders)
         if got is not None:
             got = [dict(r, d=r["d"].rstrip()) for r in got]       # the public readers also run the header parser, which trims the definition
         if o.get("err") or got != [dict(r, d=r["d"].rstrip()) for r in recs]:
@@ -562,12 +878,16 @@ def run(ctx, broken):
             if nviol <= 6:
                 big = tag == "big"
                 ctx.violation("c01_read_%d" % ci, dict(property="C01", kind="direct-oracle", what="public reader", case={k: v for k, v in c.items() if not k.startswith("_")},
-                                                       file_text=data.decode("latin1")[:2000], err=o.get("err"), implementation=(got or [])[:5] if big else got,
-                                                       n_implementation=None if got is None else len(got), expected_records=recs[:5] if big else recs, n_expected=len(recs)))
+                                                       file_text=data.decode("latin1")[:600 if big else 2000], err=o.get("err"), full_file_batch=bool(c.get("full")), batch_numbers_in_arrival_order=orders[:40],
+                                                       implementation=[r["id"] for r in (got or [])[:12]] if big else got,
+                                                       n_implementation=None if got is None else len(got), expected_records=[r["id"] for r in recs[:12]] if big else recs, n_expected=len(recs)))
 
     # 5. the built obiconvert binary: regular file, stdin, gzip file, gzip on stdin (default workers; output must be in file order)
     tfiles = [f for i, f in enumerate(files) if f[2] is not None and f[3] != "big" and (f[3] != "gen" or i % (5 if ctx.quick else 2) == 0)]
+    # (files written from printer layouts have unusual but valid header lines: the CLI's format sniffing is not exercised on them)
+    tfiles = [f for f in tfiles if f[3] not in ("blank-only", "layout")]
     ntrans = run_transports(ctx, tfiles, broken)
+    T["transports_s"] = round(time.time() - t0, 1)
     dist["obiconvert_runs"] = ntrans
     dist["readfull_cases"] = len(fcases)
     ctx.cov["evaluations"] = nchunkings + len(pcases) + len(scases) + len(rcases) + ntrans + len(fcases)
@@ -594,6 +914,15 @@ def replay(ctx, rp):
     print("replay:", json.dumps(c)[:400])
     print("file  :", repr(rp.get("file_text")))
     o = obs[0]
+    if o.get("kind") == "read":
+        orders = o.get("orders") or []
+        print(" public reader %s, %d workers, flat-file buffer %s: %d batches, numbers in the order delivered: %s%s" % (
+            c["fmt"], c.get("workers", 0), c.get("flatb") or "production size", len(orders), orders[:40], " ..." if len(orders) > 40 else ""))
+        print(" -> delivered in file order" if orders == list(range(len(orders))) else " -> NOT delivered in file order",
+              "; %d records, fatal=%s err=%s" % (len(o.get("recs") or []), o.get("fatal"), o.get("err")))
+        print(" first identifiers delivered:", [obs_rec(r)["id"] for r in (o.get("arrived") or o.get("recs") or [])[:12]])
+        print(" expected:", rp.get("expected_records"))
+        return
     if o.get("kind") == "sweep":
         for s in o["sizes"]:
             print(" B=%d status=%s chunks=%s same_records_as_whole_file=%s" % (s["b"], s["st"], s["chunks"], s["same"]))
